@@ -778,6 +778,14 @@ func (p *Prog) collectLeaves(e ast.Expr, out map[string]bool, needLower *bool, s
 			}
 			out["^(?s:"+regexpQuote(s)+")$"] = true
 			return nil
+		case "whole":
+			// whole(re_var): the strings the code's regexp matches from the first to the last byte
+			pat, err := p.wholePattern(x)
+			if err != nil {
+				return err
+			}
+			out[pat] = true
+			return nil
 		case "lowerpre":
 			*needLower = true
 		case "lquot", "rquot":
@@ -801,6 +809,22 @@ func (p *Prog) collectLeaves(e ast.Expr, out map[string]bool, needLower *bool, s
 		return p.collectLeaves(x.X, out, needLower, seen)
 	}
 	return fmt.Errorf("bad language expression")
+}
+
+// wholePattern: the anchored form of a regexp variable of the code, for whole(re_var).
+func (p *Prog) wholePattern(x *ast.CallExpr) (string, error) {
+	if len(x.Args) != 1 {
+		return "", fmt.Errorf("whole needs one code regexp (re_<var>)")
+	}
+	id, ok := x.Args[0].(*ast.Ident)
+	if !ok || !strings.HasPrefix(id.Name, "re_") {
+		return "", fmt.Errorf("whole needs a code regexp (re_<var>)")
+	}
+	pat, err := p.codeRegexPattern(strings.TrimPrefix(id.Name, "re_"))
+	if err != nil {
+		return "", err
+	}
+	return "^(?:" + pat + ")$", nil
 }
 
 func isASCII(s string) bool {
@@ -912,6 +936,19 @@ func (le *langEnv) dfa(e ast.Expr) (*DFA, error) {
 				return leftQuotient(d, w, le.al), nil
 			}
 			return rightQuotient(d, w, le.al), nil
+		}
+		if fn == "whole" {
+			pat, err := le.p.wholePattern(x)
+			if err != nil {
+				return nil, err
+			}
+			key := "regex:" + pat
+			if d, ok := le.cache[key]; ok {
+				return d, nil
+			}
+			d := leafDFA(le.leaves[pat], le.al)
+			le.cache[key] = d
+			return d, nil
 		}
 		if fn != "regex" && fn != "lit" {
 			for _, a := range x.Args {
